@@ -4,14 +4,18 @@ package main
 
 import (
 	"context"
+	"errors"
 	"fmt"
+	"time"
 
 	"github.com/NethermindEth/juno/blockchain"
 	"github.com/NethermindEth/juno/core"
 	"github.com/NethermindEth/juno/core/felt"
 	"github.com/NethermindEth/juno/db"
 	"github.com/NethermindEth/juno/db/memory"
+	"github.com/NethermindEth/juno/feed"
 	"github.com/NethermindEth/juno/pruner"
+	"github.com/NethermindEth/juno/utils/log"
 	"verif/harness/lib"
 )
 
@@ -28,7 +32,10 @@ type Step struct {
 	HonestRoot *felt.Felt
 	// batch-rotation threshold of a prune step (0 = pruneBatchBytes: one batch per block)
 	BatchBytes int
-	After      World
+	// numRetainedBlocks of the pruner.Pruner that runs this prune step (scenarios with ViaPruner):
+	// the L1 head it is sent is PruneTo + Retained
+	Retained uint64
+	After    World
 }
 
 func (s *Step) batchBytes() int {
@@ -65,6 +72,14 @@ type Scenario struct {
 	SrcNew    bool
 	DstNew    bool
 	Pruning   bool
+	// the node is built with WithRunningEventFilterInitializer(core.InitializeRunningEventFilter)
+	// instead of the default floor-aware initialiser (never-pruning scenarios only)
+	CoreInit  bool
+	// the node is wired as node.New / node.Run do: ONE pruner.RetentionFloor shared between the
+	// Blockchain (WithRetentionFloor) and the pruner.Pruner service, seeded from the database when
+	// the process starts; prune steps go through the real Pruner (an L1-head event on its feed), which
+	// raises the shared floor and then runs PruneUpto
+	ViaPruner bool
 	Base      *memory.Database
 	BaseWorld World
 	Steps     []Step
@@ -82,7 +97,7 @@ func (sc *Scenario) Describe() map[string]any {
 		ops[i] = sc.Steps[i].String()
 	}
 	return map[string]any{"scenario": sc.Name, "seed": sc.Seed, "src_new_state": sc.SrcNew, "dst_new_state": sc.DstNew,
-		"pruning_node": sc.Pruning, "base_height": sc.BaseWorld.Height(), "ops": ops, "backend": sc.Backend}
+		"pruning_node": sc.Pruning, "via_pruner_service": sc.ViaPruner, "core_initialiser": sc.CoreInit, "base_height": sc.BaseWorld.Height(), "ops": ops, "backend": sc.Backend}
 }
 
 func (sc *Scenario) worldBefore(i int) *World {
@@ -92,12 +107,40 @@ func (sc *Scenario) worldBefore(i int) *World {
 	return &sc.Steps[i-1].After
 }
 
+// open builds a node the way node.New does. blockchain.New installs the floor-aware initialiser
+// (pruner.InitializeRunningEventFilter) by default; a never-pruning scenario with CoreInit set
+// passes core.InitializeRunningEventFilter through the option instead (both wirings are run; the
+// model is told which one: cfg flag p).
 func (sc *Scenario) open(store db.KeyValueStore) *blockchain.Blockchain {
+	bc, _ := sc.openF(store)
+	return bc
+}
+
+// openF also returns the retention floor of the new process (nil unless ViaPruner).
+func (sc *Scenario) openF(store db.KeyValueStore) (*blockchain.Blockchain, *pruner.RetentionFloor) {
 	opts := []blockchain.Option{}
-	if sc.Pruning {
-		opts = append(opts, blockchain.WithRunningEventFilterInitializer(pruner.InitializeRunningEventFilter))
+	if sc.CoreInit && !sc.Pruning {
+		opts = append(opts, blockchain.WithRunningEventFilterInitializer(core.InitializeRunningEventFilter))
 	}
-	return lib.NodeOn(store, lib.TestNetwork(), sc.DstNew, opts...)
+	var floor *pruner.RetentionFloor
+	if sc.ViaPruner {
+		// node.New: unseeded floor handed to the Blockchain; node.Run: seeded before the services start
+		floor = &pruner.RetentionFloor{}
+		opts = append(opts, blockchain.WithRetentionFloor(floor))
+	}
+	bc := lib.NodeOn(store, lib.TestNetwork(), sc.DstNew, opts...)
+	if floor != nil {
+		if err := floor.Seed(store); err != nil {
+			panic(fmt.Sprintf("seeding the retention floor: %v", err))
+		}
+	}
+	return bc, floor
+}
+
+func newNode(sc *Scenario, fdb *FaultDB) *Node {
+	n := &Node{sc: sc, fdb: fdb}
+	n.bc, n.floor = sc.openF(fdb)
+	return n
 }
 
 // Node is a live node of a run.
@@ -105,6 +148,8 @@ type Node struct {
 	sc  *Scenario
 	fdb *FaultDB
 	bc  *blockchain.Blockchain
+	// the process' shared retention floor (ViaPruner scenarios)
+	floor *pruner.RetentionFloor
 	// cached observation of the in-memory filter (dropped by every call)
 	mf    *core.RunningEventFilter
 	mfErr error
@@ -171,12 +216,15 @@ func (n *Node) exec(s *Step) error {
 			if err := n.bc.WriteRunningEventFilter(); err != nil {
 				return err
 			}
-			n.bc = n.sc.open(n.fdb)
+			n.bc, n.floor = n.sc.openF(n.fdb)
 			return nil
 		case "kill":
-			n.bc = n.sc.open(n.fdb)
+			n.bc, n.floor = n.sc.openF(n.fdb)
 			return nil
 		case "prune":
+			if n.sc.ViaPruner {
+				return n.pruneViaPruner(s)
+			}
 			_, _, err := pruner.PruneUpto(context.Background(), n.fdb, s.PruneTo, s.batchBytes())
 			return err
 		}
@@ -185,6 +233,38 @@ func (n *Node) exec(s *Step) error {
 	if panicked {
 		return fmt.Errorf("%w\n%s", err, stack)
 	}
+	return err
+}
+
+// errPrunerIdle: the Pruner dropped the L1-head event without pruning (harness error: the
+// generator only sends events that pass onNewL1Head's guards).
+var errPrunerIdle = errors.New("harness: the pruner did not answer the L1-head event")
+
+// pruneViaPruner runs a prune step the way a pruning node does: a pruner.Pruner service sharing
+// the process' RetentionFloor with the Blockchain receives an L1-head event; onNewL1Head computes
+// oldestBlockToKeep = l1 - numRetainedBlocks, pruneUpto raises the shared floor and runs the
+// multi-batch sweep. The listener callbacks tell when the event has been handled.
+func (n *Node) pruneViaPruner(s *Step) error {
+	l1Feed, l2Feed := feed.New[*core.L1Head](), feed.New[*core.Block]()
+	done := make(chan error, 4)
+	lst := &pruner.SelectiveListener{
+		OnPruneCb:      func(uint64, uint64, time.Duration) { done <- nil },
+		OnPruneErrorCb: func(err error) { done <- err },
+	}
+	p := pruner.New(n.fdb, n.floor, s.Retained, l2Feed.Subscribe(), l1Feed.Subscribe(), log.NewNopZapLogger(),
+		pruner.WithTargetBatchByteSize(s.batchBytes()), pruner.WithListener(lst))
+	ctx, cancel := context.WithCancel(context.Background())
+	fin := make(chan error, 1)
+	go func() { fin <- p.Run(ctx) }()
+	l1Feed.Send(&core.L1Head{BlockNumber: s.PruneTo + s.Retained})
+	var err error
+	select {
+	case err = <-done:
+	case <-time.After(10 * time.Minute):
+		err = errPrunerIdle
+	}
+	cancel()
+	<-fin
 	return err
 }
 
@@ -392,7 +472,16 @@ func (b *builder) pruneWith(to uint64, batchBytes int) {
 	if to > b.flr {
 		b.flr = to
 	}
-	b.push(Step{Op: "prune", PruneTo: to, BatchBytes: batchBytes})
+	st := Step{Op: "prune", PruneTo: to, BatchBytes: batchBytes}
+	if b.sc.ViaPruner {
+		// the pruner acts on an L1 head strictly below the chain height; numRetainedBlocks 0..2
+		h := uint64(b.g.Height() - 1)
+		if to >= h {
+			panic(fmt.Sprintf("harness: prune target %d is not below the head %d (scenario runs through the Pruner service)", to, h))
+		}
+		st.Retained = min(uint64(b.r.Intn(3)), h-1-to)
+	}
+	b.push(st)
 }
 
 // fastForward stores n blocks without transactions on the generator and on a plain destination
